@@ -24,6 +24,7 @@
 #include "array.h"
 #include "types.h"
 #include "event.h"
+#include "object.h"
 #include "vf.h"
 
 const char *vf_name = "c17_msg";
@@ -1097,7 +1098,269 @@ static void case_dispatch(uint64_t idx, vf_rng *r)
 	if (idx % 211 == 17) vf_sample("dispatch_hash: %s -> handler %d; every cut into 2 and 3 fragments (+ empty fragments), 30 PRNG lists", ctx, ref.called);
 }
 
-uint64_t vf_cases(void) { return n_exA() + n_exB() + n_prng() + n_getex() + n_getprng() + n_dispatch(); }
+
+/* ------------------------------------------------------ message_property */
+/*
+ * mpt_message_property() takes the next "name=value" argument off a message
+ * and hands it to a property handler; a refused argument (handler failure, no
+ * '=', too long) must stay on the message.  A case is one text; a fixed caller
+ * sequence (property call; on success skip the separator; on refusal call again,
+ * then step over the argument with mpt_message_argv + mpt_message_read) is run
+ * on the contiguous message and on every cut into 2 and 3 fragments (+ empty
+ * fragments, PRNG lists).  After every step the return code, what the handler
+ * saw, and the message state (remaining length, all remaining bytes read from
+ * a copy of the cursor) must equal the contiguous run; the contiguous run is
+ * checked against the flat meaning of the text where it has no quotes.
+ */
+/* exported by the library; object.h spells the prototype mpt_message_properties */
+extern int mpt_message_property(MPT_STRUCT(message) *, int , MPT_TYPE(property_handler) , void *);
+
+#define PSTEPS 14
+#define PTEXT 1200
+typedef struct {
+	int kind;                 /* 0 property call, 1 skip separator, 2 argv, 3 read argument */
+	long ret;
+	int seen;                 /* handler invoked */
+	char name[48], value[48];
+	size_t remain;
+	uint64_t rest_hash;
+	uint8_t rest[40];
+} pstep;
+typedef struct { int n; pstep s[PSTEPS * 3]; } prec;
+static pstep *p_cur;
+static int p_handler(void *ctx, const MPT_STRUCT(property) *pr)
+{
+	const char *val = (pr->val._type == 's' && pr->val._addr) ? *((const char *const *) pr->val._addr) : 0;
+	(void) ctx;
+	p_cur->seen++;
+	snprintf(p_cur->name, sizeof(p_cur->name), "%s", pr->name ? pr->name : "(null)");
+	snprintf(p_cur->value, sizeof(p_cur->value), "%s", val ? val : "(null)");
+	if (pr->name && pr->name[0] == 'r') return MPT_ERROR(BadArgument);   /* refused property */
+	return val ? (int) strlen(val) & 7 : 0;
+}
+static void p_state(const MPT_STRUCT(message) *msg, pstep *st)
+{
+	static uint8_t buf[PTEXT + 8];
+	MPT_STRUCT(message) c = *msg;
+	vf_at("mpt_message_length");
+	st->remain = mpt_message_length(&c);
+	vf_at("mpt_message_read");
+	size_t got = mpt_message_read(&c, sizeof(buf), buf);
+	uint64_t h = 0xcbf29ce484222325ULL ^ got;
+	for (size_t i = 0; i < got; i++) { h ^= buf[i]; h *= 0x100000001b3ULL; }
+	st->rest_hash = h;
+	memset(st->rest, 0, sizeof(st->rest));
+	memcpy(st->rest, buf, got < sizeof(st->rest) ? got : sizeof(st->rest));
+	if (got != st->remain) st->rest_hash ^= 0x5555;   /* length and readable bytes disagree: shows as difference */
+}
+static pstep *p_step(prec *rec, int kind)
+{
+	pstep *st = &rec->s[rec->n++];
+	memset(st, 0, sizeof(*st));
+	st->kind = kind;
+	return st;
+}
+static void p_run(MPT_STRUCT(message) *msg, int sep, prec *rec)
+{
+	rec->n = 0;
+	for (int i = 0; i < PSTEPS && rec->n + 4 < PSTEPS * 3; i++) {
+		pstep *st = p_cur = p_step(rec, 0);
+		vf_at("mpt_message_property"); vf_count("mpt_message_property", 1);
+		st->ret = mpt_message_property(msg, sep, p_handler, 0);
+		p_state(msg, st);
+		if (st->ret >= 0) {
+			st = p_step(rec, 1);
+			vf_at("mpt_message_read");
+			st->ret = (long) mpt_message_read(msg, 1, 0);
+			p_state(msg, st);
+			continue;
+		}
+		if (st->ret == MPT_ERROR(MissingData) && !st->remain) break;
+		/* refused: the argument is still there - ask again, then step over it */
+		st = p_cur = p_step(rec, 0);
+		vf_at("mpt_message_property"); vf_count("mpt_message_property", 1);
+		st->ret = mpt_message_property(msg, sep, p_handler, 0);
+		p_state(msg, st);
+		st = p_step(rec, 2);
+		vf_at("mpt_message_argv"); vf_count("mpt_message_argv", 1);
+		st->ret = mpt_message_argv(msg, sep);
+		p_state(msg, st);
+		long len = st->ret;
+		st = p_step(rec, 3);
+		vf_at("mpt_message_read");
+		st->ret = (long) mpt_message_read(msg, len > 0 ? (size_t) len + 1 : 1, 0);
+		p_state(msg, st);
+	}
+}
+static const char *const pkind[] = { "message_property", "skip separator", "argv", "read argument" };
+/* fragments of one run */
+static void p_frag_run(const uint8_t *data, const size_t *cuts, int k, int all_in_list, int sep, prec *rec)
+{
+	uint8_t *blk[12];
+	int nv = all_in_list ? k : k - 1;
+	struct iovec *vec = vf_xalloc(nv * sizeof(*vec));
+	MPT_STRUCT(message) msg = MPT_MESSAGE_INIT;
+	size_t pos = 0;
+	for (int i = 0; i < k; i++) {
+		blk[i] = vf_xalloc(cuts[i]);
+		if (cuts[i]) memcpy(blk[i], data + pos, cuts[i]);
+		pos += cuts[i];
+		if (all_in_list) { vec[i].iov_base = blk[i]; vec[i].iov_len = cuts[i]; }
+		else if (i) { vec[i - 1].iov_base = blk[i]; vec[i - 1].iov_len = cuts[i]; }
+	}
+	if (!all_in_list) { msg.base = blk[0]; msg.used = cuts[0]; }
+	msg.cont = nv ? vec : 0;
+	msg.clen = nv;
+	p_run(&msg, sep, rec);
+	pos = 0;
+	for (int i = 0; i < k; i++) {
+		VF_CHECK(!cuts[i] || !memcmp(blk[i], data + pos, cuts[i]), "model:message_property:data-modified", "fragment %d of the message changed", i);
+		if (i >= (all_in_list ? 0 : 1)) {
+			int j = all_in_list ? i : i - 1;
+			VF_CHECK(vec[j].iov_base == blk[i] && vec[j].iov_len == cuts[i], "model:message_property:fragment-list-modified", "entry %d of the fragment list changed", j);
+		}
+		pos += cuts[i];
+		vf_xfree(blk[i], cuts[i]);
+	}
+	vf_xfree(vec, nv * sizeof(*vec));
+}
+/* flat meaning of the contiguous run (texts without quotes) */
+static void p_reference(const uint8_t *data, size_t len, int sep, const prec *rec, const char *ctx)
+{
+	size_t pos = 0;
+	const char *space = "\t \n\r\v";
+	for (int i = 0; i < rec->n; i++) {
+		const pstep *st = &rec->s[i];
+		if (st->kind == 0) {
+			size_t p = pos, e;
+			if (sep) while (p < len && isspace(data[p])) p++;
+			for (e = p; e < len; e++) if (isgraph(sep) ? data[e] == sep : (sep ? (data[e] && strchr(space, data[e])) : !data[e])) break;
+			if (!isgraph(sep) && sep && e == len) { const uint8_t *z = memchr(data + p, 0, len - p); if (z) e = z - data; }
+			size_t tl = e - p;
+			const uint8_t *eq = tl ? memchr(data + p, '=', tl) : 0;
+			long want;
+			int seen = 0;
+			if (!tl) want = MPT_ERROR(MissingData);
+			else if (tl >= 1024) want = MPT_ERROR(MissingBuffer);
+			else if (!eq) want = MPT_ERROR(BadEncoding);
+			else {
+				seen = 1;
+				size_t nl = eq - (data + p), vl = tl - nl - 1;
+				if (nl < sizeof(st->name) && vl < sizeof(st->value)) {
+					VF_CHECK(strlen(st->name) == nl && !memcmp(st->name, data + p, nl) && strlen(st->value) == vl && !memcmp(st->value, eq + 1, vl), "model:message_property:contiguous-reference",
+					         "%s: step %d: handler saw '%s'='%s', argument at %zu is %s", ctx, i, st->name, st->value, p, show(hx2, sizeof(hx2), data + p, tl));
+				}
+				want = data[p] == 'r' ? MPT_ERROR(BadValue) : (long) (vl & 7);
+			}
+			VF_CHECK(st->ret == want && st->seen == seen, "model:message_property:contiguous-reference", "%s: step %d at %zu returned %ld (handler called %d times), expected %ld (%d)", ctx, i, pos, st->ret, st->seen, want, seen);
+			if (st->ret >= 0) pos = e;
+			VF_CHECK(st->remain == len - pos, "model:message_property:contiguous-reference", "%s: step %d returned %ld and left %zu bytes, expected %zu", ctx, i, st->ret, st->remain, len - pos);
+		} else {
+			/* the other steps are the verified primitives: follow the position they report */
+			pos = len - st->remain;
+		}
+	}
+}
+static uint64_t n_property(void) { return vf_thorough ? 20000 : 600; }
+static void case_property(vf_rng *r)
+{
+	static uint8_t data[PTEXT + 64];
+	static prec ref, cur;
+	static const int seps[] = { ' ', ' ', ' ', ',', 0, '\n' };
+	int sep = seps[vf_below(r, 6)], quotes = 0, ntok = 1 + vf_below(r, 4), haslong = 0;
+	size_t len = 0;
+	char ctx[200];
+	/* text */
+	if (sep && vf_chance(r, 1, 4)) { data[len++] = ' '; if (vf_chance(r, 1, 2)) data[len++] = '\t'; }
+	for (int t = 0; t < ntok; t++) {
+		static const char first[] = "abrgrzxr";
+		int kind = vf_below(r, 10);
+		size_t nl = 1 + vf_below(r, 5), vl = vf_below(r, 5);
+		if (t) {
+			data[len++] = (uint8_t) sep;
+			if (sep == ' ' && vf_chance(r, 1, 3)) data[len++] = vf_chance(r, 1, 2) ? ' ' : '\t';
+		}
+		if (kind == 9 && !haslong && vf_chance(r, 1, 6)) { nl = 3; vl = 1020 + vf_below(r, 12); haslong = 1; }   /* too long for the argument buffer */
+		data[len++] = (uint8_t) first[vf_below(r, 8)];
+		for (size_t i = 1; i < nl; i++) data[len++] = (uint8_t) ('a' + vf_below(r, 26));
+		if (kind == 0) continue;                                   /* no '=': bad encoding */
+		data[len++] = '=';
+		if (kind == 1 && sep == ' ') {                             /* quoted value with a blank inside */
+			quotes = 1;
+			data[len++] = '"'; data[len++] = 'q'; data[len++] = ' '; data[len++] = (uint8_t) ('0' + vf_below(r, 10)); data[len++] = '"';
+			continue;
+		}
+		for (size_t i = 0; i < vl; i++) data[len++] = (uint8_t) (vf_chance(r, 1, 8) ? '=' : '0' + vf_below(r, 10));
+	}
+	if (vf_chance(r, 1, 4)) data[len++] = (uint8_t) sep;
+	snprintf(ctx, sizeof(ctx), "separator 0x%02x, text %s", sep, show(hx1, sizeof(hx1), data, len));
+	vf_fp_u64(0x9209); vf_fp_u64(sep); vf_fp(data, len);
+
+	/* contiguous reference */
+	p_frag_run(data, &len, 1, 0, sep, &ref);
+	if (!quotes) p_reference(data, len, sep, &ref, ctx);
+	int refused = 0, accepted = 0;
+	for (int i = 0; i < ref.n; i++) if (ref.s[i].kind == 0) {
+		if (ref.s[i].ret >= 0) accepted++;
+		else if (ref.s[i].ret != MPT_ERROR(MissingData)) refused++;
+		vf_count(ref.s[i].ret >= 0 ? "property:accepted" : ref.s[i].ret == MPT_ERROR(BadValue) ? "property:refused-by-handler" : ref.s[i].ret == MPT_ERROR(BadEncoding) ? "property:refused-no-assignment" :
+		         ref.s[i].ret == MPT_ERROR(MissingBuffer) ? "property:refused-too-long" : "property:no-argument", 1);
+	}
+	size_t cuts[12];
+#define P_COMPARE(K, LIST) do { \
+		p_frag_run(data, cuts, (K), (LIST), sep, &cur); \
+		int n_ = cur.n < ref.n ? cur.n : ref.n; \
+		for (int i_ = 0; i_ < n_ || i_ == n_; i_++) { \
+			const pstep *a_ = &cur.s[i_], *b_ = &ref.s[i_]; \
+			const char *what_ = 0; \
+			if (i_ == n_) { if (cur.n != ref.n) what_ = "number of steps"; else break; } \
+			else if (a_->kind != b_->kind) what_ = "course of the caller sequence"; \
+			else if (a_->ret != b_->ret) what_ = "return value"; \
+			else if (a_->seen != b_->seen || strcmp(a_->name, b_->name) || strcmp(a_->value, b_->value)) what_ = "handler arguments"; \
+			else if (a_->remain != b_->remain) what_ = "remaining length"; \
+			else if (a_->rest_hash != b_->rest_hash) what_ = "remaining bytes"; \
+			if (what_) { \
+				char cb_[80]; size_t o_ = 0; \
+				for (int j_ = 0; j_ < (K); j_++) o_ += snprintf(cb_ + o_, sizeof(cb_) - o_, "%s%zu", j_ ? "," : "", cuts[j_]); \
+				if (i_ == n_) vf_fail("model:message_property:fragmented-differs", "%s cut as {%s}%s: %d steps, contiguous %d", ctx, cb_, (LIST) ? " (all in list)" : "", cur.n, ref.n); \
+				vf_fail(a_->kind == 0 && i_ && 0 ? "" : "model:message_property:fragmented-differs", "%s cut as {%s}%s: step %d (%s): %s differs: ret %ld handler '%s'='%s' left %zu bytes %s; contiguous: ret %ld '%s'='%s' left %zu bytes %s", \
+				        ctx, cb_, (LIST) ? " (all in list)" : "", i_, pkind[a_->kind], what_, a_->ret, a_->name, a_->value, a_->remain, show(hx2, 60, a_->rest, a_->remain < 24 ? a_->remain : 24), \
+				        b_->ret, b_->name, b_->value, b_->remain, show(hx3, 60, b_->rest, b_->remain < 24 ? b_->remain : 24)); \
+			} \
+		} \
+		if (refused) vf_count("property:fragmented-run-with-refusal", 1); \
+		vf_count("monitor:property-compared", 1); \
+	} while (0)
+	if (len <= 40) {
+		for (size_t x = 0; x <= len; x++) {
+			cuts[0] = x; cuts[1] = len - x;
+			P_COMPARE(2, 0);
+			P_COMPARE(2, 1);
+			for (size_t c = x; c <= len; c++) {
+				cuts[0] = x; cuts[1] = c - x; cuts[2] = len - c; P_COMPARE(3, (int) (x & 1));
+				cuts[0] = x; cuts[1] = 0; cuts[2] = c - x; cuts[3] = len - c; P_COMPARE(4, 0);
+				cuts[0] = 0; cuts[1] = x; cuts[2] = c - x; cuts[3] = 0; cuts[4] = len - c; P_COMPARE(5, (int) (c & 1));
+			}
+		}
+	}
+	for (int i = 0; i < (len <= 40 ? 30 : 200); i++) {
+		int k = 2 + vf_below(r, 7);
+		size_t left = len;
+		for (int j = 0; j + 1 < k; j++) {
+			size_t n = vf_chance(r, 1, 4) ? 0 : 1 + vf_below(r, 4);
+			if (len > 40 && vf_chance(r, 1, 2)) n = vf_below(r, (uint32_t) left + 1);
+			if (n > left) n = left;
+			cuts[j] = n; left -= n;
+		}
+		cuts[k - 1] = left;
+		P_COMPARE(k, (int) vf_below(r, 2));
+	}
+#undef P_COMPARE
+	if (refused && accepted) vf_nontrivial();
+	vf_sample("message_property: %s: %d accepted, %d refused arguments; caller sequence on every cut into 2 and 3 fragments (+ empty ones) and PRNG lists", ctx, accepted, refused);
+}
+
+uint64_t vf_cases(void) { return n_exA() + n_exB() + n_prng() + n_getex() + n_getprng() + n_dispatch() + n_property(); }
 
 void vf_case(uint64_t idx, vf_rng *r)
 {
@@ -1111,5 +1374,7 @@ void vf_case(uint64_t idx, vf_rng *r)
 	if (idx < n_getex()) { case_getex(idx, r); return; }
 	idx -= n_getex();
 	if (idx < n_getprng()) { case_getprng(r); return; }
-	case_dispatch(idx - n_getprng(), r);
+	idx -= n_getprng();
+	if (idx < n_dispatch()) { case_dispatch(idx, r); return; }
+	case_property(r);
 }
